@@ -62,7 +62,9 @@ KMF = 'enspara/cluster/kmedoids.py'
 MUT_PAM = [('dropped-copy', KMF, "new_medoids = medoid_coords.copy()", "new_medoids = medoid_coords"),
            ('accept-reversed', KMF, "        if new_cost < old_cost:", "        if new_cost > old_cost:"),
            ('labels-without-distances', KMF, "            distances, assignments = new_dist, new_assig\n", "            assignments = new_assig\n"),
-           ('wrong-branch', KMF, "dst_up_assig_other = (distances <= new_ctr_dist) & (assignments != cid)", "dst_up_assig_other = (distances <= new_ctr_dist)"),
+           # (dropping `& (assignments != cid)` from dst_up_assig_other is NOT a canary: the cells it adds are overwritten by the
+           #  dst_up_assig_this stores below, the rewrite is equivalent - the thorough tier showed it verifying)
+           ('ties-left-unassigned', KMF, "dst_up_assig_this = (distances <= new_ctr_dist) & (assignments == cid)", "dst_up_assig_this = (distances < new_ctr_dist) & (assignments == cid)"),
            ('index-before-decision', KMF, "        new_medoids[cid] = proposed_center\n", "        new_medoids[cid] = proposed_center\n        medoid_inds[cid] = proposed_center_ind\n")]
 
 
